@@ -1,0 +1,39 @@
+//go:build verif
+// +build verif
+
+// Read-only accessors used by external verification harnesses.
+// Compiled only with the "verif" build tag.
+
+package evalfilter
+
+import (
+	"github.com/skx/evalfilter/v2/environment"
+	"github.com/skx/evalfilter/v2/object"
+)
+
+// VerifProgram returns the program the machine will execute: the constant
+// pool, the main body, and every user-defined function.  Only valid after
+// a successful Prepare.
+func (e *Eval) VerifProgram() ([]object.Object, []byte, map[string]environment.UserFunction) {
+	return e.machine.VerifConstants(), e.machine.VerifBytecode(), e.machine.VerifFunctions()
+}
+
+// VerifStackDepth returns the number of entries left upon the value stack.
+func (e *Eval) VerifStackDepth() int {
+	return e.machine.VerifStackDepth()
+}
+
+// VerifScopeDepth returns the number of local scopes currently open.
+func (e *Eval) VerifScopeDepth() int {
+	return e.environment.VerifScopeDepth()
+}
+
+// VerifGlobals returns a shallow copy of the global variable store.
+func (e *Eval) VerifGlobals() map[string]object.Object {
+	return e.environment.VerifGlobals()
+}
+
+// VerifFunctionNames returns the sorted names of all registered host functions.
+func (e *Eval) VerifFunctionNames() []string {
+	return e.environment.VerifFunctionNames()
+}
